@@ -4,7 +4,8 @@ use crate::core::World;
 pub mod base64;
 pub mod decode;
 pub mod queue;
+pub mod tty;
 
 pub fn all() -> Vec<World> {
-    vec![base64::world(), queue::world(), decode::world()]
+    vec![base64::world(), queue::world(), decode::world(), tty::world()]
 }
